@@ -744,3 +744,148 @@ Section ReadProofs.
   Qed.
 
 End ReadProofs.
+
+(* ------------------------------------------------------------------------------------------
+   access programs: any composition of handle operations followed by any read               *)
+From Pq Require Import Dataset.ReadSpec.
+
+Lemma chunks_concat : forall A (ls : list (list A)), chunks (map (@length A) ls) (concat ls) = ls.
+Proof.
+  intros A ls. induction ls as [|l ls IH]; [reflexivity|]. cbn [map concat chunks].
+  rewrite firstn_app, firstn_all, Nat.sub_diag. cbn [firstn]. rewrite app_nil_r.
+  rewrite skipn_app, skipn_all, Nat.sub_diag. cbn [skipn app]. rewrite IH. reflexivity.
+Qed.
+
+Lemma sel_hop_map : forall A B (f : A -> B) op l,
+  sel_hop op (map f l) = bind (sel_hop op l) (fun r => Ok (map f r)).
+Proof.
+  intros A B f op l. destruct op as [s|i| | |]; cbn [sel_hop bind]; try reflexivity.
+  - rewrite py_slice_map. destruct (py_slice s l); reflexivity.
+  - rewrite py_pick_map. destruct (py_pick i l); reflexivity.
+Qed.
+
+Lemma sel_hops_map : forall A B (f : A -> B) ops l,
+  sel_hops ops (map f l) = bind (sel_hops ops l) (fun r => Ok (map f r)).
+Proof.
+  intros A B f ops. induction ops as [|op ops IH]; intros l; [reflexivity|].
+  cbn [sel_hops]. rewrite sel_hop_map. destruct (sel_hop op l) as [r|e]; [|reflexivity].
+  cbn [bind]. apply IH.
+Qed.
+
+Lemma sel_hop_incl : forall A op (l r : list A), sel_hop op l = Ok r -> incl r l.
+Proof.
+  intros A op l r H. destruct op as [s|i| | |]; cbn [sel_hop] in H.
+  - destruct (py_slice s l) eqn:E; [|discriminate]. injection H as <-. eapply py_slice_incl; eauto.
+  - destruct (py_pick i l) eqn:E; [|discriminate]. injection H as <-. intros x [<-|[]]. eapply py_pick_In; eauto.
+  - injection H as <-. apply incl_refl.
+  - injection H as <-. apply incl_refl.
+  - injection H as <-. apply incl_refl.
+Qed.
+
+Lemma sel_hops_incl : forall A ops (l r : list A), sel_hops ops l = Ok r -> incl r l.
+Proof.
+  intros A ops. induction ops as [|op ops IH]; intros l r H.
+  - injection H as <-. apply incl_refl.
+  - cbn [sel_hops] in H. destruct (sel_hop op l) as [m|e] eqn:E; [|discriminate]. cbn [bind] in H.
+    eapply incl_tran; [eapply IH; eauto|eapply sel_hop_incl; eauto].
+Qed.
+
+Section Programs.
+  Variables D R Name B : Type.
+  Variable deqb : D -> D -> bool.
+  Variable neqb : Name -> Name -> bool.
+  Variable rows : D -> list R.
+  Variable nrows : D -> nat.
+  Variable ser : list D -> B.
+  Variable deser : B -> option (list D).
+  Hypothesis neqb_spec : forall a b, reflect (a = b) (neqb a b).
+  Hypothesis deqb_spec : forall a b, reflect (a = b) (deqb a b).
+  Hypothesis ser_roundtrip : forall l, deser (ser l) = Some l.     (* C10: from_buffer (to_bytes x) = x *)
+
+  Notation wf := (wf D R rows nrows).
+  Notation handle := (handle D Name).
+
+  Lemma with_rgs_with_rgs : forall (h : handle) l l', with_rgs (with_rgs h l) l' = with_rgs h l'.
+  Proof. reflexivity. Qed.
+
+  Lemma apply_hops_sel : forall ops (h : handle),
+    apply_hops ser deser h ops = bind (sel_hops ops (h_rgs h)) (fun l => Ok (with_rgs h l)).
+  Proof.
+    induction ops as [|op ops IH]; intros h.
+    - cbn. rewrite with_rgs_same. reflexivity.
+    - cbn [apply_hops sel_hops].
+      assert (E : apply_hop ser deser h op = bind (sel_hop op (h_rgs h)) (fun l => Ok (with_rgs h l))).
+      { destruct op as [s|i| | |]; cbn [apply_hop sel_hop].
+        - unfold getitem_slice. destruct (py_slice s (h_rgs h)); reflexivity.
+        - unfold getitem_pick. destruct (py_pick i (h_rgs h)); reflexivity.
+        - unfold pickle. rewrite ser_roundtrip. reflexivity.
+        - cbn. rewrite with_rgs_same. reflexivity.
+        - cbn. rewrite with_rgs_same. reflexivity. }
+      rewrite E. destruct (sel_hop op (h_rgs h)) as [l|e]; [|reflexivity]. cbn [bind].
+      rewrite IH. cbn [h_rgs with_rgs]. destruct (sel_hops ops l); reflexivity.
+  Qed.
+
+  Lemma out_columns_shape : forall D1 D2 (l1 : list D1) (l2 : list D2) c p i o,
+    (l1 = [] <-> l2 = []) ->
+    out_columns neqb (mk_handle l1 c p i) o = out_columns neqb (mk_handle l2 c p i) o.
+  Proof.
+    intros D1 D2 l1 l2 c p i o H. unfold out_columns, cats_of. cbn [h_rgs h_cols h_pcols h_index].
+    destruct l1, l2; try reflexivity.
+    - destruct H as [H _]. specialize (H eq_refl). discriminate.
+    - destruct H as [_ H]. specialize (H eq_refl). discriminate.
+  Qed.
+
+  Lemma iter_frames_eq : forall (ci : list Name * list Name) l,
+    filter (fun f : frame R Name => negb (frame_empty f))
+           (map (fun d => mk_frame (fst ci) (snd ci) (map Some (rows d))) l)
+    = map (fun p => mk_frame (fst ci) (snd ci) (map Some p))
+          (filter (fun p => nonempty p && nonempty (fst ci)) (map rows l)).
+  Proof.
+    intros ci l. induction l as [|d l IH]; [reflexivity|]. cbn [map filter].
+    unfold frame_empty at 1. cbn [f_rows f_cols].
+    destruct (rows d); cbn [map nonempty andb negb]; [exact IH|].
+    destruct (fst ci); cbn [nonempty negb map]; [exact IH|]. rewrite IH. reflexivity.
+  Qed.
+
+  Lemma run_rd_spec : forall (h : handle) r, wf (h_rgs h) ->
+    run_rd deqb neqb rows nrows h r
+    = spec_out neqb (h_cols h) (h_pcols h) (h_index h) (map rows (h_rgs h)) r.
+  Proof.
+    intros h r H.
+    assert (Hc : forall o, out_columns neqb h o
+                 = out_columns neqb (mk_handle (map rows (h_rgs h)) (h_cols h) (h_pcols h) (h_index h)) o).
+    { intros o. destruct h as [l c p i]. apply out_columns_shape. cbn. destruct l; cbn; split; congruence. }
+    destruct r as [o|o|n o| |]; cbn [run_rd spec_out].
+    - rewrite to_pandas_wf by exact H. rewrite Hc.
+      destruct (out_columns neqb _ o); reflexivity.
+    - rewrite iter_spec by first [exact H | exact deqb_spec | exact neqb_spec].
+      rewrite Hc. clear Hc H.
+      destruct (h_rgs h) as [|d0 l0]; [reflexivity|].
+      destruct (out_columns neqb _ o) as [ci|e]; [|reflexivity].
+      cbn [bind map]. change (rows d0 :: map rows l0) with (map rows (d0 :: l0)).
+      rewrite <- iter_frames_eq. reflexivity.
+    - rewrite head_spec by first [exact H | exact deqb_spec | exact neqb_spec].
+      rewrite to_pandas_wf by exact H. rewrite Hc.
+      destruct (out_columns neqb _ o); reflexivity.
+    - unfold count. rewrite (wf_count D R rows nrows) by exact H. reflexivity.
+    - unfold len. rewrite map_length. reflexivity.
+  Qed.
+
+  Lemma wf_parts : forall l, wf l -> map rows l = chunks (map nrows l) (concat (map rows l)).
+  Proof.
+    intros l H. rewrite <- (chunks_concat _ (map rows l)) at 1. f_equal. rewrite map_map.
+    apply map_ext_in. intros d Hd. symmetry. apply H, Hd.
+  Qed.
+
+  (* EVERY access program returns exactly the corresponding part of the full read *)
+  Theorem programs_spec : forall (h : handle) ops r, wf (h_rgs h) ->
+    run deqb neqb rows nrows ser deser h ops r
+    = spec_run neqb (h_cols h) (h_pcols h) (h_index h)
+               (chunks (map nrows (h_rgs h)) (concat (map rows (h_rgs h)))) ops r.
+  Proof.
+    intros h ops r H. unfold run, spec_run. rewrite apply_hops_sel, <- wf_parts by exact H.
+    rewrite sel_hops_map. destruct (sel_hops ops (h_rgs h)) as [l|e] eqn:E; [|reflexivity].
+    cbn [bind]. rewrite run_rd_spec; [reflexivity|].
+    cbn [h_rgs with_rgs]. eapply wf_incl; [exact H|eapply sel_hops_incl; eauto].
+  Qed.
+End Programs.
